@@ -171,6 +171,9 @@ def run(ctx) -> Result:
         r = vtime.run(lambda loop, s=sc: c02.run_scenario(s), budget=80_000_000)
         c02.check_run(r, model, res, f"eager-prefixes-{kind}")
         res.dist[f"broker:{kind}"] += len(jobs)
+    # handles obtained by iterating a queue through the public API, on every broker kind
+    import queueapi
+    queueapi.part_c16(res)
     return res
 
 
